@@ -350,3 +350,403 @@ Proof.
   destruct res as [s1 [e|]]; cbn [bindR fst ret] in *; [rewrite Hd'; apply D; exact Hy|].
   rewrite (ds_add_post _ r p c). cbn. rewrite Hd'. apply D. exact Hy.
 Qed.
+
+(* ---- kinds and references survive op_add ---- *)
+Lemma kf_op_add s r p c pos :
+  kind_of (fst (op_add s r p c pos)) = kind_of s /\ iref (fst (op_add s r p c pos)) = iref s.
+Proof.
+  unfold op_add, guard. destruct (_ && _); [|split; reflexivity]. destruct (add_guard1 _ _ _ _); [|split; reflexivity].
+  destruct (par s r c); [split; reflexivity|].
+  pose proof (se_ns_add s p c (rel_child r)) as Hse.
+  set (res := if ns_rel r then ns_add s p c (rel_child r) else ret s).
+  assert (Hn : kind_of (fst res) = kind_of s /\ iref (fst res) = iref s).
+  { unfold res; destruct (ns_rel r); [split; [apply (se_kind _ _ Hse)|apply (se_iref _ _ Hse)]|split; reflexivity]. }
+  destruct res as [s1 [e|]]; cbn [bindR fst ret] in *; [exact Hn|].
+  rewrite (fw_kind _ _ (fw_add_post _ r p c)), (fw_iref _ _ (fw_add_post _ r p c)). cbn. exact Hn.
+Qed.
+
+(* ---- calls that cannot be refused ---- *)
+Lemma op_add_item_ok s r p c pos :
+  ns_rel r = false -> is_kind s p (rel_parent r) = true -> is_kind s c (rel_child r) = true ->
+  par s r c = None -> snd (op_add s r p c pos) = None.
+Proof.
+  intros Hr Hp Hc Hpar. unfold op_add, guard. rewrite Hp, Hc. cbn [andb].
+  assert (Hg : add_guard1 s r p c = true) by (destruct r; try discriminate Hr; unfold add_guard1; rewrite Hpar; reflexivity).
+  rewrite Hg, Hpar, Hr. reflexivity.
+Qed.
+
+Lemma create_items_ok r p : ns_rel r = false -> forall n s,
+  Fresh s -> is_kind s p (rel_parent r) = true -> snd (create_items s r p n) = None.
+Proof.
+  intros Hr. induction n as [|n IH]; intros s F Hp; cbn [create_items]; [reflexivity|].
+  unfold alloc. cbn zeta.
+  set (x := next s).
+  set (s0 := s <| next := S x |> <| kind_of ::= fun f => upd f x (Some (rel_child r)) |>).
+  assert (Hpx : p <> x) by (pose proof (is_kind_lt s p _ F Hp); unfold x; lia).
+  assert (Hp0 : is_kind s0 p (rel_parent r) = true).
+  { unfold is_kind in *. cbn. unfold upd. apply Nat.eqb_neq in Hpx. rewrite Hpx. exact Hp. }
+  assert (Hc0 : is_kind s0 x (rel_child r) = true).
+  { unfold is_kind. cbn. rewrite upd_same. destruct (rel_child r); reflexivity. }
+  assert (Hpar : par s0 r x = None) by (cbn; apply (f_par s F); apply Nat.le_refl).
+  pose proof (op_add_item_ok s0 r p x None Hr Hp0 Hc0 Hpar) as Hok.
+  pose proof (fresh_op_add s0 r p x None (fresh_alloc s (rel_child r) F)) as F1.
+  destruct (kf_op_add s0 r p x None) as [Hk _].
+  destruct (op_add s0 r p x None) as [s1 e]. cbn [snd fst] in *. subst e. cbn [bindR].
+  apply IH; [exact F1|]. unfold is_kind in *. rewrite Hk. exact Hp0.
+Qed.
+
+Lemma op_set_reference_ok s x v :
+  is_kind s x KInstance = true ->
+  match v with Some d => is_kind s d KDefinition | None => true end = true ->
+  iref s x = None -> only_stuck (op_set_reference s x v).
+Proof.
+  intros Hx Hv Hi. unfold op_set_reference, guard. rewrite Hx, Hv. cbn [andb]. rewrite Hi.
+  replace (match v with Some _ => true | None => true end) with true by (destruct v; reflexivity).
+  destruct v as [d'|].
+  - apply only_stuck_bind; [|intro; exact I]. cbn [iref emit]. 
+    replace (iref (emit s (EReference x (Some d'))) x) with (@None id) by (symmetry; exact Hi). exact I.
+  - apply only_stuck_bind; [apply only_stuck_fold_idsR; intros; apply only_stuck_drop_outer|].
+    intro s3. apply only_stuck_bind; [|intro; exact I].
+    destruct (iref (set_ipins s3 x []) x); [destruct (memb _ _); cbn; [exact I|reflexivity]|exact I].
+Qed.
+
+Lemma pol_of_val_name p : pol_of_val (VStr (pol_name p)) = Some p.
+Proof. destruct p; vm_compute; reflexivity. Qed.
+
+(* Instance() with no arguments is never refused *)
+Lemma construct_instance_ok s : Fresh s -> FreshD s -> snd (fst (construct s KInstance None [])) = None.
+Proof.
+  intros F D. unfold construct, alloc. cbn zeta beta iota. cbn [has_data fst].
+  set (x := next s).
+  set (s0 := s <| next := S x |> <| kind_of ::= fun f => upd f x (Some KInstance) |>).
+  assert (Hd : data s0 x = []) by (cbn; apply D; apply Nat.le_refl).
+  assert (Hk : kind_of s0 x = Some KInstance) by (cbn; apply upd_same).
+  assert (Hp : ns_parent s0 x = None).
+  { unfold ns_parent. rewrite Hk. cbn. apply (f_par s F). apply Nat.le_refl. }
+  unfold ns_create, dict_set, ns_dictionary_set. rewrite str_eqb_refl, Hd. cbn [sassoc].
+  rewrite Hp, pol_of_val_name.
+  assert (Hc : is_compliant (policy s0) s0 x = true).
+  { unfold is_compliant. rewrite Hk. unfold elem_valid, get_str. rewrite Hd. destruct (policy s0); reflexivity. }
+  rewrite Hc. reflexivity.
+Qed.
+
+(* ---- deleting data entries ---- *)
+Lemma old_eq_emit s ev : old_eq s (emit s ev).
+Proof. apply old_eq_of_struct; [apply se_emit|intros; split; reflexivity]. Qed.
+
+Lemma get_str_absent s e k : has_key s e k = false -> get_str s e k = None.
+Proof. unfold has_key, get_str. destruct (sassoc k (data s e)); [discriminate|reflexivity]. Qed.
+
+Lemma old_eq_ns_remove_key_absent s e k : has_key s e k = false -> old_eq s (ns_remove_key s e k).
+Proof.
+  intro Hk. apply old_eq_of_struct; [apply se_ns_remove_key|]. intros y _.
+  unfold ns_remove_key. rewrite (get_str_absent s e k Hk).
+  destruct (ns_parent s e) as [p|]; [|split; reflexivity]. destruct (kind_of s e); [|split; reflexivity].
+  destruct (nstab s p) as [t|] eqn:Et; [|split; reflexivity]. cbn. split; [reflexivity|].
+  unfold upd. destruct (Nat.eqb_spec y p) as [->|]; [symmetry; exact Et|reflexivity].
+Qed.
+
+Lemma data_ns_remove_key s e k : data (ns_remove_key s e k) = data s.
+Proof.
+  unfold ns_remove_key. destruct (ns_parent s e); [|reflexivity]. destruct (kind_of s e); [|reflexivity].
+  destruct (nstab s _); reflexivity.
+Qed.
+
+Lemma data_emit s ev : data (emit s ev) = data s.
+Proof. reflexivity. Qed.
+
+Section DelPop.
+  Variable mk : id -> str -> event.
+  Let del (s : state) (e : id) (k : str) : R :=
+    ns_dictionary_delete s e k >>= fun s1 =>
+    let s2 := emit s1 (mk e k) in
+    if has_key s2 e k then ret (data_erase s2 e k) else raise s2 XKey.
+
+  Lemma del_refused_old s e k : refusal (del s e k) -> old_eq s (fst (del s e k)).
+  Proof.
+    unfold del, ns_dictionary_delete. destruct (str_eqb k str_NS) eqn:E.
+    - apply str_eqb_spec in E. subst k.
+      destruct (ns_parent s e); [intros _; apply old_eq_refl|].
+      destruct (has_key s e str_NS) eqn:Hk; cbn [bindR ret].
+      + unfold has_key in *. rewrite data_emit, drop_namespace_own_data.
+        destruct (sassoc str_NS (data s e)); [|discriminate]. cbn. intros [x [Hx _]]. discriminate.
+      + unfold has_key in *. rewrite data_emit. destruct (sassoc str_NS (data s e)); [discriminate|].
+        intros _. cbn. apply old_eq_emit.
+    - destruct (is_name_key k); cbn [bindR ret].
+      + unfold has_key. rewrite data_emit, data_ns_remove_key.
+        destruct (sassoc k (data s e)) eqn:Ek; [cbn; intros [x [Hx _]]; discriminate|].
+        intros _. cbn [fst raise]. eapply old_eq_trans; [apply old_eq_ns_remove_key_absent|apply old_eq_emit].
+        unfold has_key. rewrite Ek. reflexivity.
+      + unfold has_key. rewrite data_emit.
+        destruct (sassoc k (data s e)); [cbn; intros [x [Hx _]]; discriminate|].
+        intros _. cbn. apply old_eq_emit.
+  Qed.
+
+  Lemma del_name_present_ok s e : has_key s e str_NAME = true -> snd (del s e str_NAME) = None.
+  Proof.
+    intro Hk. unfold del, ns_dictionary_delete.
+    replace (str_eqb str_NAME str_NS) with false by (vm_compute; reflexivity).
+    replace (is_name_key str_NAME) with true by (vm_compute; reflexivity).
+    cbn [bindR ret]. unfold has_key in *. rewrite data_emit, data_ns_remove_key.
+    destruct (sassoc str_NAME (data s e)); [reflexivity|discriminate].
+  Qed.
+End DelPop.
+
+Lemma dict_del_refused_old s e k : refusal (dict_del s e k) -> old_eq s (fst (dict_del s e k)).
+Proof. exact (del_refused_old EDictDel s e k). Qed.
+Lemma dict_pop_refused_old s e k : refusal (dict_pop s e k) -> old_eq s (fst (dict_pop s e k)).
+Proof. exact (del_refused_old EDictPop s e k). Qed.
+Lemma dict_del_name_present_ok s e : has_key s e str_NAME = true -> snd (dict_del s e str_NAME) = None.
+Proof. exact (del_name_present_ok EDictDel s e). Qed.
+
+(* ---- FreshD is an invariant ---- *)
+Definition dn (s s' : state) : Prop := data s' = data s /\ next s <= next s'.
+Lemma dn_refl s : dn s s. Proof. split; [reflexivity|apply Nat.le_refl]. Qed.
+Lemma dn_trans a b c : dn a b -> dn b c -> dn a c.
+Proof. intros [A1 A2] [B1 B2]. split; [congruence|lia]. Qed.
+Lemma dn_bind r f s : dn s (fst r) -> (forall s1, dn s1 (fst (f s1))) -> dn s (fst (r >>= f)).
+Proof. destruct r as [s1 [x|]]; cbn; intros H1 H2; [exact H1|]. eapply dn_trans; [exact H1|apply H2]. Qed.
+Lemma dn_guard b x s k : (forall s1, dn s1 (fst (k s1))) -> dn s (fst (guard b x s k)).
+Proof. intro H. unfold guard. destruct b; [apply H|apply dn_refl]. Qed.
+Lemma freshd_dn s s' : dn s s' -> FreshD s -> FreshD s'.
+Proof. intros [A B] D. apply (freshd_same s s' B A D). Qed.
+
+Lemma dn_remove_core s r p c : dn s (fst (remove_core s r p c)).
+Proof. split; [apply ds_remove_core|rewrite next_remove_core; apply Nat.le_refl]. Qed.
+
+Lemma dn_op_set_reference s x v : dn s (fst (op_set_reference s x v)).
+Proof.
+  split; [apply ds_op_set_reference|].
+  destruct (fw_op_set_reference_but_iref s x v) as [_ [_ [Hn _]]]. rewrite Hn. apply Nat.le_refl.
+Qed.
+
+Lemma dn_op_add_item s r p c pos : ns_rel r = false -> dn s (fst (op_add s r p c pos)).
+Proof.
+  intro Hr. split; [|rewrite next_op_add; apply Nat.le_refl].
+  unfold op_add. repeat (apply ds_guard; intro). rewrite Hr. cbn [bindR ret fst].
+  eapply dsame_trans; [|apply ds_add_post]. reflexivity.
+Qed.
+
+Lemma dn_create_items r p : ns_rel r = false -> forall n s, dn s (fst (create_items s r p n)).
+Proof.
+  intro Hr. induction n as [|n IH]; intro s; cbn [create_items]; [apply dn_refl|].
+  unfold alloc. cbn zeta.
+  eapply dn_trans with (b := s <| next := S (next s) |> <| kind_of ::= fun f => upd f (next s) (Some (rel_child r)) |>);
+    [split; [reflexivity|cbn; lia]|].
+  apply dn_bind; [apply dn_op_add_item; exact Hr|apply IH].
+Qed.
+
+Lemma dn_clear_old_top s n : dn s (clear_old_top s n).
+Proof. unfold clear_old_top. destruct (top s n); split; reflexivity || apply Nat.le_refl. Qed.
+
+Lemma elem_lt s e : Fresh s -> elem_has_data s e = true -> e < next s.
+Proof.
+  intros F H. unfold elem_has_data in H. destruct (kind_of s e) eqn:E; [|discriminate].
+  destruct (Nat.lt_ge_cases e (next s)) as [Hl|Hg]; [exact Hl|]. rewrite (f_kind s F e Hg) in E. discriminate.
+Qed.
+
+Lemma freshd_struct_data s (r : R) : struct_eq s (fst r) ->
+  (forall y, next s <= y -> data (fst r) y = data s y) -> FreshD s -> FreshD (fst r).
+Proof. intros Hs Hd D y Hy. rewrite (se_next _ _ Hs) in Hy. rewrite (Hd y Hy). apply D. exact Hy. Qed.
+
+Ltac dn_triv := first [apply dn_refl | split; [reflexivity|apply Nat.le_refl]].
+
+Theorem step_freshd s o : Fresh s -> Inv s -> FreshD s -> FreshD (fst (step s o)).
+Proof.
+  intros F HI D. pose proof HI as [Ha _].
+  assert (Hsub : forall e y, e < next s -> next s <= y -> ~ In y (subtree s e)).
+  { intros e y He Hy Hin. apply (subtree_lt s e y F Ha He) in Hin. lia. }
+  destruct o; cbn [step].
+  - apply freshd_construct; assumption.
+  - unfold guard. destruct (_ && _) eqn:HG; [|exact D].
+    apply andb_true_iff in HG as [HG _]. apply andb_true_iff in HG as [_ Hns].
+    unfold create_and_add.
+    pose proof (freshd_construct s (rel_child r) nm props F D) as Dc.
+    pose proof (fresh_construct s (rel_child r) nm props F) as Fc.
+    destruct (step_inv s (ONew (rel_child r) nm props) HI) as [[Hac _] _]. cbn [step] in Hac.
+    destruct (construct s (rel_child r) nm props) as [res x]. cbn [fst] in *.
+    destruct res as [s1 [e|]]; cbn [bindR fst] in *; [exact Dc|].
+    pose proof (freshd_op_add s1 r p x None Fc Hac Dc) as Da.
+    destruct (op_add s1 r p x None) as [s2 [e|]]; cbn [bindR fst] in *; [exact Da|].
+    destruct r; try exact Da; try discriminate Hns.
+    + apply (freshd_dn s2); [apply dn_create_items; reflexivity|exact Da].
+    + apply (freshd_dn s2); [apply dn_create_items; reflexivity|exact Da].
+    + apply (freshd_dn s2); [apply dn_op_set_reference|exact Da].
+  - unfold guard. destruct (_ && _) eqn:HG; [|exact D]. apply andb_true_iff in HG as [_ Hns]. apply negb_true_iff in Hns.
+    apply (freshd_dn s); [apply dn_create_items; exact Hns|exact D].
+  - apply freshd_op_add; assumption.
+  - apply (freshd_dn s); [|exact D]. unfold op_remove. repeat (apply dn_guard; intro).
+    apply dn_bind; [apply dn_remove_core|intro; dn_triv].
+  - apply (freshd_dn s); [|exact D]. unfold op_remove_from. repeat (apply dn_guard; intro).
+    apply dn_bind; [|intro; dn_triv].
+    split; [apply ds_fold_idsR; intros; apply ds_remove_core|rewrite next_fold_remove_core; apply Nat.le_refl].
+  - apply (freshd_dn s); [|exact D]. unfold op_reorder. repeat (apply dn_guard; intro). dn_triv.
+  - apply (freshd_dn s); [|exact D]. unfold op_reorder_wire. repeat (apply dn_guard; intro). dn_triv.
+  - apply (freshd_dn s); [|exact D]. unfold op_connect. apply dn_guard; intro s1.
+    destruct p as [i|n i|]; cbn; try dn_triv.
+    + destruct (ipwire s1 i); dn_triv.
+    + destruct (assoc i (ipins s1 n)) as [[w0|]|]; dn_triv.
+  - apply (freshd_dn s); [|exact D]. unfold op_disconnect. repeat (apply dn_guard; intro). destruct p; dn_triv.
+  - apply (freshd_dn s); [|exact D]. unfold op_disconnect_from. repeat (apply dn_guard; intro). cbn [fst ret].
+    match goal with |- dn ?sx (set_wpins (fold_left ?f ?l ?sx) _ _) =>
+      apply (dn_trans sx (fold_left f l sx)); [|dn_triv];
+      split; [apply ds_fold_left; intros sq q; destruct q; reflexivity|];
+      rewrite (fw_next _ _ (fw_fold_left f l ltac:(intros sq q; destruct q; constructor; reflexivity) sx)); apply Nat.le_refl end.
+  - apply (freshd_dn s); [apply dn_op_set_reference|exact D].
+  - unfold op_set_top, guard. destruct (_ && _); [|exact D].
+    assert (D0 : FreshD (clear_old_top (emit s (ETop n a)) n)).
+    { apply (freshd_dn s); [|exact D]. eapply dn_trans; [|apply dn_clear_old_top]. dn_triv. }
+    assert (F0 : Fresh (clear_old_top (emit s (ETop n a)) n)).
+    { apply (fresh_same s); try (unfold clear_old_top; destruct (top _ n); reflexivity). exact F. }
+    destruct a as [x|d|]; [exact D0| |exact D0].
+    pose proof (freshd_construct _ KInstance None [] F0 D0) as Dc.
+    destruct (construct (clear_old_top (emit s (ETop n (TopDef d))) n) KInstance None []) as [res t]. cbn [fst] in Dc.
+    destruct res as [s2 [e|]]; cbn [bindR fst] in *; [exact Dc|].
+    pose proof (dn_op_set_reference s2 t (Some d)) as Hd.
+    destruct (op_set_reference s2 t (Some d)) as [s3 [e|]]; cbn [bindR fst ret] in *; [apply (freshd_dn s2); assumption|].
+    apply (freshd_dn s2); [|exact Dc]. eapply dn_trans; [exact Hd|].
+    match goal with |- dn s3 (?a <| top ::= _ |> <| istop ::= _ |>) => apply (dn_trans s3 a); [|dn_triv] end.
+    eapply dn_trans; [|apply dn_clear_old_top]. dn_triv.
+  - unfold guard. destruct (elem_has_data s e) eqn:He; [|exact D].
+    apply (freshd_struct_data s); [apply se_op_set_name| |exact D]. intros y Hy.
+    pose proof (Hsub e y (elem_lt s e F He) Hy) as Hn.
+    unfold op_set_name. destruct nm; [apply dict_set_data; exact Hn|].
+    destruct (has_key s e str_NAME); [apply dict_del_data; exact Hn|reflexivity].
+  - unfold guard. destruct (elem_has_data s e) eqn:He; [|exact D].
+    apply (freshd_struct_data s); [apply se_op_del_name| |exact D]. intros y Hy.
+    pose proof (Hsub e y (elem_lt s e F He) Hy) as Hn.
+    unfold op_del_name. destruct (has_key s e str_NAME); [apply dict_del_data; exact Hn|reflexivity].
+  - unfold guard. destruct (elem_has_data s e) eqn:He; [|exact D].
+    apply (freshd_struct_data s); [apply se_dict_set| |exact D]. intros y Hy.
+    apply dict_set_data. apply (Hsub e y (elem_lt s e F He) Hy).
+  - unfold guard. destruct (elem_has_data s e) eqn:He; [|exact D].
+    apply (freshd_struct_data s); [apply se_dict_del| |exact D]. intros y Hy.
+    apply dict_del_data. apply (Hsub e y (elem_lt s e F He) Hy).
+  - unfold guard. destruct (elem_has_data s e) eqn:He; [|exact D].
+    apply (freshd_struct_data s); [apply se_dict_pop| |exact D]. intros y Hy.
+    apply dict_pop_data. apply (Hsub e y (elem_lt s e F He) Hy).
+  - apply (freshd_dn s); [|exact D]. apply dn_guard; intro. dn_triv.
+  - apply (freshd_dn s); [|exact D]. repeat (apply dn_guard; intro). dn_triv.
+  - apply (freshd_dn s); [|exact D]. apply dn_guard; intro. dn_triv.
+  - apply (freshd_dn s); [|exact D]. apply dn_guard; intro. dn_triv.
+  - apply (freshd_dn s); [|exact D]. dn_triv.
+Qed.
+
+(* ---- C14 at full strength ---- *)
+Lemma construct_id s k nm props : snd (construct s k nm props) = next s.
+Proof. unfold construct, alloc. cbn zeta beta iota. destruct (has_data k); reflexivity. Qed.
+
+Lemma refusal_none s : ~ refusal (s, None).
+Proof. intros [x [Hx _]]. discriminate. Qed.
+
+Lemma is_kind_upd_other s x k0 y k :
+  y <> x -> is_kind (s <| kind_of ::= fun f => upd f x (Some k0) |>) y k = is_kind s y k.
+Proof. intro H. unfold is_kind. cbn. unfold upd. apply Nat.eqb_neq in H. rewrite H. reflexivity. Qed.
+
+Lemma is_kind_of s s' x k : kind_of s' = kind_of s -> is_kind s' x k = is_kind s x k.
+Proof. intro H. unfold is_kind. rewrite H. reflexivity. Qed.
+
+Lemma is_kind_new s s' x k : kind_of s' = upd (kind_of s) x (Some k) -> is_kind s' x k = true.
+Proof. intro H. unfold is_kind. rewrite H, upd_same. destruct k; reflexivity. Qed.
+
+Lemma is_kind_old s s' x k0 y k : kind_of s' = upd (kind_of s) x (Some k0) -> y <> x -> is_kind s' y k = is_kind s y k.
+Proof. intros H Hy. unfold is_kind. rewrite H. unfold upd. apply Nat.eqb_neq in Hy. rewrite Hy. reflexivity. Qed.
+
+Theorem refused_old s o :
+  Fresh s -> FreshD s -> Inv s -> refusal (step s o) -> old_eq s (fst (step s o)).
+Proof.
+  intros F D HI Hr.
+  destruct (plain_op o) eqn:Hp; [rewrite (refused_changes_nothing s o Hp Hr); apply old_eq_refl|].
+  destruct o; cbn [plain_op] in Hp; try discriminate Hp; cbn [step] in *.
+  - (* constructor *) apply construct_old; exact F.
+  - (* create-and-add *)
+    revert Hr. unfold guard. destruct (_ && _) eqn:HG; [|intros; apply old_eq_refl].
+    apply andb_true_iff in HG as [HG Href]. apply andb_true_iff in HG as [Hkp Hns].
+    unfold create_and_add.
+    pose proof (construct_old s (rel_child r) nm props F) as Ho.
+    pose proof (fresh_construct s (rel_child r) nm props F) as Fc.
+    pose proof (construct_id s (rel_child r) nm props) as Hx.
+    destruct (construct_frame s (rel_child r) nm props) as [_ [_ [Hir [_ Hkd]]]].
+    destruct (construct s (rel_child r) nm props) as [res x]. cbn [fst snd] in *. subst x.
+    destruct res as [s1 [e|]]; cbn [bindR fst] in *; [intros _; exact Ho|].
+    pose proof (op_add_refused s1 r p (next s) None) as Hrf.
+    pose proof (fresh_op_add s1 r p (next s) None Fc) as Fa.
+    destruct (kf_op_add s1 r p (next s) None) as [Hk2 Hi2].
+    destruct (op_add s1 r p (next s) None) as [s2 [e|]]; cbn [bindR fst] in *.
+    + intro Hr. rewrite (Hrf Hr). exact Ho.
+    + assert (Hnew : is_kind s2 (next s) (rel_child r) = true).
+      { rewrite (is_kind_of s1 s2 _ _ Hk2). apply (is_kind_new s s1 _ _ Hkd). }
+      intro Hr. exfalso. destruct r; try discriminate Hns; cbn [rel_child] in *.
+      * apply (refusal_none _ Hr).
+      * apply (refusal_none _ Hr).
+      * pose proof (create_items_ok RPins (next s) eq_refl items s2 Fa Hnew) as Hok.
+        destruct (create_items s2 RPins (next s) items) as [s3 e]. cbn in Hok. subst e. apply (refusal_none _ Hr).
+      * pose proof (create_items_ok RWires (next s) eq_refl items s2 Fa Hnew) as Hok.
+        destruct (create_items s2 RWires (next s) items) as [s3 e]. cbn in Hok. subst e. apply (refusal_none _ Hr).
+      * apply (refusal_not_only_stuck _ Hr). apply op_set_reference_ok; [exact Hnew| |].
+        -- destruct ref as [d|]; [|reflexivity].
+           rewrite (is_kind_of s1 s2 _ _ Hk2), (is_kind_old s s1 (next s) KInstance d KDefinition Hkd); [exact Href|].
+           pose proof (is_kind_lt s d _ F Href). lia.
+        -- rewrite Hi2, Hir. apply (f_iref s F). apply Nat.le_refl.
+  - (* create_pins / create_wires *)
+    revert Hr. unfold guard. destruct (_ && _) eqn:HG; [|intros; apply old_eq_refl].
+    apply andb_true_iff in HG as [Hkp Hns]. apply negb_true_iff in Hns.
+    intro Hr. exfalso.
+    pose proof (create_items_ok r p Hns n s F Hkp) as Hok.
+    destruct (create_items s r p n) as [s3 e]. cbn in Hok. subst e. apply (refusal_none _ Hr).
+  - (* top_instance = definition *)
+    destruct a as [x|d|]; try discriminate Hp.
+    revert Hr. unfold op_set_top, guard. destruct (_ && _) eqn:HG; [|intros; apply old_eq_refl].
+    apply andb_true_iff in HG as [_ Hd].
+    set (s1 := clear_old_top (emit s (ETop n (TopDef d))) n).
+    assert (Hsame : kids s1 = kids s /\ par s1 = par s /\ iref s1 = iref s /\ next s1 = next s /\ kind_of s1 = kind_of s /\ data s1 = data s).
+    { unfold s1, clear_old_top. destruct (top _ n); repeat split; reflexivity. }
+    destruct Hsame as [E1 [E2 [E3 [E4 [E5 E6]]]]].
+    assert (F1 : Fresh s1) by (apply (fresh_same s); assumption).
+    assert (D1 : FreshD s1) by (intros y Hy; rewrite E6; apply D; rewrite <- E4; exact Hy).
+    pose proof (construct_instance_ok s1 F1 D1) as Hok.
+    pose proof (fresh_construct s1 KInstance None [] F1) as Fc.
+    pose proof (construct_id s1 KInstance None []) as Hx.
+    destruct (construct_frame s1 KInstance None []) as [_ [_ [Hir [_ Hkd]]]].
+    destruct (construct s1 KInstance None []) as [res t]. cbn [fst snd] in *. subst t.
+    destruct res as [s2 e]. cbn [snd fst] in *. subst e. cbn [bindR].
+    intro Hr. exfalso.
+    assert (Hos : only_stuck (op_set_reference s2 (next s1) (Some d))).
+    { apply op_set_reference_ok.
+      - apply (is_kind_new s1 s2 _ _ Hkd).
+      - rewrite (is_kind_old s1 s2 (next s1) KInstance d KDefinition Hkd); [rewrite (is_kind_of s s1 _ _ E5); exact Hd|].
+        pose proof (is_kind_lt s d _ F Hd). lia.
+      - rewrite Hir. apply (f_iref s1 F1). apply Nat.le_refl. }
+    destruct (op_set_reference s2 (next s1) (Some d)) as [s3 [e|]]; cbn [bindR] in Hr.
+    + apply (refusal_not_only_stuck _ Hr Hos).
+    + apply (refusal_none _ Hr).
+  - (* name = None *)
+    destruct nm as [nm|]; [discriminate Hp|].
+    revert Hr. unfold guard. destruct (elem_has_data s e); [|intros; apply old_eq_refl].
+    unfold op_set_name. intro Hr. exfalso.
+    destruct (has_key s e str_NAME) eqn:Hk; [|apply (refusal_none _ Hr)].
+    pose proof (dict_del_name_present_ok s e Hk) as Hok.
+    destruct (dict_del s e str_NAME) as [s3 x]. cbn in Hok. subst x. apply (refusal_none _ Hr).
+  - (* del name *)
+    revert Hr. unfold guard. destruct (elem_has_data s e); [|intros; apply old_eq_refl].
+    unfold op_del_name. intro Hr. exfalso.
+    destruct (has_key s e str_NAME) eqn:Hk; [|apply (refusal_none _ Hr)].
+    pose proof (dict_del_name_present_ok s e Hk) as Hok.
+    destruct (dict_del s e str_NAME) as [s3 x]. cbn in Hok. subst x. apply (refusal_none _ Hr).
+  - revert Hr. unfold guard. destruct (elem_has_data s e); [|intros; apply old_eq_refl]. apply dict_del_refused_old.
+  - revert Hr. unfold guard. destruct (elem_has_data s e); [|intros; apply old_eq_refl]. apply dict_pop_refused_old.
+Qed.
+
+(* every state reachable from the empty world carries the three hypotheses *)
+Theorem reachable_refused_old ops o :
+  let s := run ops init in
+  refusal (step s o) -> old_eq s (fst (step s o)).
+Proof.
+  cbn zeta.
+  assert (H : forall ops s, Fresh s -> FreshD s -> Inv s ->
+              Fresh (run ops s) /\ FreshD (run ops s) /\ Inv (run ops s)).
+  { induction ops0 as [|o0 ops0 IH]; intros s F D HI; cbn [run fold_left]; [split; [|split]; assumption|].
+    apply IH; [apply step_fresh; exact F|apply step_freshd; assumption|apply (step_inv s o0 HI)]. }
+  destruct (H ops init fresh_init (fun _ _ => eq_refl) inv_init) as [F [D HI]].
+  apply refused_old; assumption.
+Qed.
